@@ -341,6 +341,18 @@ func errorArmLeaves(fn *ssa.Function, e Edge, okEdges []Edge, recorder *ssa.Func
 		}
 	}
 	good, why := true, ""
+	// what the failing edge itself tells: the tested value is non-nil there
+	known := map[ssa.Value]bool{}
+	if ifi, ok := terminator(e.From).(*ssa.If); ok && len(e.From.Succs) == 2 && e.From.Succs[0] != e.From.Succs[1] {
+		fs := factSet{}
+		if fs.assumeCond(ifi.Cond, e.From.Succs[0] == e.To) {
+			for k := range fs {
+				if k.k == fNonNil {
+					known[k.v] = true
+				}
+			}
+		}
+	}
 	visited := map[*ssa.BasicBlock]bool{}
 	var walk func(b *ssa.BasicBlock, recorded bool)
 	walk = func(b *ssa.BasicBlock, recorded bool) {
@@ -364,7 +376,7 @@ func errorArmLeaves(fn *ssa.Function, e Edge, okEdges []Edge, recorder *ssa.Func
 					}
 					return
 				}
-				if !definitelyNonNilError(vals[len(vals)-1], nil) {
+				if !definitelyNonNilError(vals[len(vals)-1], known) {
 					good, why = false, "the failing arm can return a nil error"
 				}
 				return
